@@ -199,6 +199,7 @@ fn main() {
    let seed = arg("seed", 1);
    let budget = arg("triples", 100_000);
    let small = arg("small", 0) == 1; // reduced carriers (Miri)
+   let miri = arg("miri", 0) == 1; // only the types whose impls contain unsafe / shared-ownership paths or heap structures
    let mut rng = Rng::new(seed);
    let i8s: Vec<i8> = if small { vec![i8::MIN, 0, 1, i8::MAX] } else { vec![i8::MIN, -1, 0, 1, 2, i8::MAX] };
    let u8s: Vec<u8> = if small { vec![0, 1, 255] } else { vec![0, 1, 2, 3, 254, 255] };
@@ -230,18 +231,20 @@ fn main() {
          emit(&rd);
       }};
    }
+   let opt_i8: Vec<Option<i8>> = std::iter::once(None).chain(i8s.iter().cloned().map(Some)).collect();
+   if !miri {
    run_bounded!("bool", bools.clone());
    run_bounded!("i8", i8s.clone());
    run_bounded!("u8", u8s.clone());
    run_bounded!("i64", vec![i64::MIN, -1, 0, 1, i64::MAX]);
    run_bounded!("usize", vec![0usize, 1, 2, usize::MAX]);
    run_bounded!("i128", vec![i128::MIN, -5, 0, 7, i128::MAX]);
-   let opt_i8: Vec<Option<i8>> = std::iter::once(None).chain(i8s.iter().cloned().map(Some)).collect();
    run_bounded!("Option<i8>", opt_i8.clone());
    let opt_opt: Vec<Option<Option<bool>>> = vec![None, Some(None), Some(Some(false)), Some(Some(true))];
    run!("Option<Option<bool>>", opt_opt);
    run!("OrdLattice<i8>", i8s.iter().cloned().map(OrdLattice).collect::<Vec<_>>());
    run!("OrdLattice<(i8,bool)>", i8s.iter().flat_map(|&a| bools.iter().map(move |&b| OrdLattice((a, b)))).collect::<Vec<_>>());
+   }
    // Rc / Arc / Box: unique and shared ownership (make_mut paths)
    let rcs: Vec<Rc<i8>> = i8s.iter().cloned().map(Rc::new).collect();
    let _keep_shared: Vec<Rc<i8>> = rcs.iter().step_by(2).cloned().collect();
@@ -251,6 +254,7 @@ fn main() {
    run!("Arc<Option<i8>>", arcs);
    run!("Box<i8>", i8s.iter().cloned().map(Box::new).collect::<Vec<_>>());
    run!("Rc<Set<u8>>", sets.iter().cloned().map(Rc::new).collect::<Vec<_>>());
+   if !miri {
    // tuples (lexicographic)
    run!("(i8,)", i8s.iter().map(|&a| (a,)).collect::<Vec<_>>());
    run_bounded!("(i8,bool)", i8s.iter().flat_map(|&a| bools.iter().map(move |&b| (a, b))).collect::<Vec<_>>());
@@ -261,6 +265,7 @@ fn main() {
    run_bounded!("Product<[i8;2]>", i8s.iter().flat_map(|&a| [i8::MIN, -1, 3, i8::MAX].into_iter().map(move |b| Product([a, b]))).collect::<Vec<_>>());
    run_bounded!("Product<[bool;3]>", (0..8u8).map(|m| Product([m & 1 != 0, m & 2 != 0, m & 4 != 0])).collect::<Vec<_>>());
    run!("Product<(Set<u8>,i8)>", subsets(2).into_iter().flat_map(|s| [i8::MIN, 0, 5].into_iter().map(move |b| Product((s.clone(), b)))).collect::<Vec<_>>());
+   }
    // sets
    run!("Set<u8>", sets.clone());
    let mut bs2: Vec<BoundedSet<2, u8>> = sets.iter().cloned().map(BoundedSet::from_set).collect();
@@ -281,6 +286,7 @@ fn main() {
    let mut bs0: Vec<BoundedSet<0, u8>> = vec![BoundedSet::new(), BoundedSet::singleton(1), BoundedSet::TOP];
    bs0.dedup();
    run_bounded!("BoundedSet<0,u8>", { let mut v: Vec<BoundedSet<0, u8>> = vec![]; for x in bs0 { if !v.contains(&x) { v.push(x) } } v });
+   if !miri {
    // constant propagation
    let cps: Vec<ConstPropagation<u8>> = vec![ConstPropagation::Bottom, ConstPropagation::Constant(0), ConstPropagation::Constant(1), ConstPropagation::Constant(2), ConstPropagation::Constant(3), ConstPropagation::Top];
    run_bounded!("ConstPropagation<u8>", cps.clone());
@@ -293,11 +299,14 @@ fn main() {
    run!("Option<Dual<ConstPropagation<u8>>>", std::iter::once(None).chain(cps.iter().map(|c| Some(Dual(*c)))).collect::<Vec<_>>());
    run!("Dual<Dual<i8>>", i8s.iter().map(|&a| Dual(Dual(a))).collect::<Vec<_>>());
    run!("(Dual<i8>,Option<bool>)", i8s.iter().flat_map(|&a| [None, Some(false), Some(true)].into_iter().map(move |b| (Dual(a), b))).collect::<Vec<_>>());
+   }
+   if !miri {
    // random larger values
    let mut big: Vec<u64> = (0..24).map(|_| rng.next()).collect();
    big.extend([0, u64::MAX]);
    run_bounded!("u64(random)", big);
    let bigsets: Vec<Set<u8>> = (0..40).map(|_| Set((0..12u8).filter(|_| rng.chance(1, 2)).collect())).collect();
    run!("Set<u8>(random 12-element universe)", bigsets);
+   }
    println!("{{\"done\":true}}");
 }
